@@ -3,6 +3,7 @@ The `crash` flag of the threaded state (set where `float_layout` / `absolute_box
 method on `None`) is never raised: a layout leaves it as it found it.
 -/
 import WpModel.Lemmas.OofTotal
+import WpModel.Lemmas.OofPages
 
 namespace Wp.PMO
 open Wp Wp.PM
@@ -208,6 +209,39 @@ end
 
 /-! ### pages -/
 
+theorem layoutAbs_isSome (c : Ctx) (fuel : Nat) (box : OBox) (idx : Nat) (y : Rat) (skip : Option Resume)
+    (w : World) : (layoutAbs c fuel box idx y skip w).frag.isSome = true := by
+  have hs := box_some box c idx y 0 skip false [] { w with shapes := [], absL := [] }
+  cases fuel with
+  | zero => rw [layoutAbs]; exact hs
+  | succ n => rw [layoutAbs]; simpa using hs
+
+theorem layoutAbs_crash (c : Ctx) : ∀ (fuel : Nat) (box : OBox) (idx : Nat) (y : Rat) (skip : Option Resume)
+    (w : World), (layoutAbs c fuel box idx y skip w).w.crash = w.crash
+  | 0, box, idx, y, skip, w => by
+    rw [layoutAbs]
+    exact layoutBox_crash box c idx y 0 skip false true [] { w with shapes := [], absL := [] }
+  | fuel + 1, box, idx, y, skip, w => by
+    rw [layoutAbs_succ]
+    have hfold : ∀ (es : List AbsEntry) (acc : World × List (Nat × OFrag)),
+        (es.foldl (nestedAbsStep c fuel) acc).1.crash = acc.1.crash := by
+      intro es
+      induction es with
+      | nil => intro acc; rfl
+      | cons e es ih =>
+        intro acc
+        simp only [List.foldl_cons]
+        rw [ih]
+        unfold nestedAbsStep
+        dsimp only
+        have hs := layoutAbs_isSome c fuel e.box e.idx e.y none acc.1
+        cases hfr : (layoutAbs c fuel e.box e.idx e.y none acc.1).frag with
+        | none => rw [hfr] at hs; simp at hs
+        | some f => simp only; exact layoutAbs_crash c fuel e.box e.idx e.y none acc.1
+    simp only
+    rw [hfold]
+    exact layoutBox_crash box c idx y 0 skip false true [] { w with shapes := [], absL := [] }
+
 theorem contStep_crash (c : Ctx) (rootTop : Rat) (acc : World × List OFrag) (e : Broken) :
     (contStep c rootTop acc e).1.crash = acc.1.crash := by
   unfold contStep
@@ -224,10 +258,9 @@ theorem contStep_crash (c : Ctx) (rootTop : Rat) (acc : World × List OFrag) (e 
       unfold floatDone
       simp only [hfr]
       exact hr
-  · have hsome := box_some e.box c e.idx rootTop 0 (some e.resume) false [] { acc.1 with shapes := [] }
-    have hr := layoutBox_crash e.box c e.idx rootTop 0 (some e.resume) false true [] { acc.1 with shapes := [] }
-    cases hfr : (layoutBox c e.box e.idx rootTop 0 (some e.resume) false true []
-        { acc.1 with shapes := [] }).frag with
+  · have hsome := layoutAbs_isSome c (boxDepth e.box) e.box e.idx rootTop (some e.resume) acc.1
+    have hr := layoutAbs_crash c (boxDepth e.box) e.box e.idx rootTop (some e.resume) acc.1
+    cases hfr : (layoutAbs c (boxDepth e.box) e.box e.idx rootTop (some e.resume) acc.1).frag with
     | none => rw [hfr] at hsome; simp at hsome
     | some f => simp only; exact hr
 
@@ -241,9 +274,9 @@ theorem absStep_crash (c : Ctx) (acc : World × List (Nat × OFrag)) (e : AbsEnt
     (absStep c acc e).1.crash = acc.1.crash := by
   unfold absStep
   dsimp only
-  have hsome := box_some e.box c e.idx e.y 0 none false [] { acc.1 with shapes := [] }
-  have hr := layoutBox_crash e.box c e.idx e.y 0 none false true [] { acc.1 with shapes := [] }
-  cases hfr : (layoutBox c e.box e.idx e.y 0 none false true [] { acc.1 with shapes := [] }).frag with
+  have hsome := layoutAbs_isSome c (boxDepth e.box) e.box e.idx e.y none acc.1
+  have hr := layoutAbs_crash c (boxDepth e.box) e.box e.idx e.y none acc.1
+  cases hfr : (layoutAbs c (boxDepth e.box) e.box e.idx e.y none acc.1).frag with
   | none => rw [hfr] at hsome; simp at hsome
   | some f => simp only; exact hr
 
